@@ -188,6 +188,25 @@ def eval_pipeline(case):
               sample={'amp_consistency': df['amp_consistency'].tolist(), 'amp_fraction': df['amp_fraction'].tolist()} if nt else None)
 
 
+def eval_resolution(case):
+    """Long tables whose amplitudes are all DISTINCT but closer together than single-precision resolution (relative spacing
+    2**-30 .. 2**-45), in several physical units: the rank must still separate them."""
+    from bycycle.features.burst import compute_amp_fraction
+    n, k, unit = case
+    base = 3.0 * unit
+    order = [(i * 7919) % n for i in range(n)]              # a fixed permutation (7919 is prime and larger than n is not needed: gcd = 1)
+    V = [base * (1.0 + j * 2.0 ** -k) for j in order]
+    if len(set(V)) != n:
+        return SKIP('values not distinct in double precision')
+    got = np.asarray(compute_amp_fraction(pd.DataFrame({'volt_amp': V})), dtype=float)
+    exp = ref_amp_fraction(V)
+    if not same_values(got, exp):
+        bad = [i for i in range(n) if got[i] != exp[i]]
+        return VIOL({'kind': 'amp_fraction', 'via': 'resolution', 'n': n}, 'amp_fraction of %d distinct amplitudes spaced 2**-%d apart (unit %g) is not '
+                    'rank / n: %d rows differ' % (n, k, unit, len(bad)), observed={'first_bad_rows': bad[:5]})
+    return OK(outcome=(n, k, unit), nontrivial=True)
+
+
 def spaces(tier, seed):
     q = tier == 'quick'
     out = [
@@ -203,6 +222,11 @@ def spaces(tier, seed):
         ProductSpace('mono-signals', [[-1, 0, 1]] * (7 if q else 8), eval_mono, min_len=3,
                      describe='every signal over {-1,0,1} of length 3..7 x every last<centre<next triple x 2 centrings'),
     ]
+    from bcmc.explore import ListSpace
+    out.append(ListSpace('ampfrac-resolution', [[n, k, u] for n in ((7, 600, 6007) if q else (7, 600, 2003, 6007, 20011)) for k in (30, 38, 45) for u in (1., 1e-6, 2.0 ** -40)],
+                         eval_resolution, describe='tables of 7 .. 6007 (20011) distinct amplitudes spaced 2**-30 .. 2**-45 apart x 3 units'))
+    out.append(ListSpace('long-recordings', S.long_cases(['@A', '@B', '@C', '@D'], [(), ('trough',)]), eval_pipeline,
+                         describe='long real-valued recordings (660 / 1430 / 300 / 200 cycles) x centring: tables of more than 255 / 512 / 1000 rows'))
     opts = [(), ('trough',)]
     if q:
         al = S.alphabet(6)
